@@ -1049,3 +1049,27 @@ _C03_GUARDS = [
 def c03_n(ctx):
     from .base import check_guard_table
     check_guard_table(ctx, _C03_GUARDS)
+
+
+_C03_TWIN = [
+    ('elfi.compiler:ObservedCompiler.make_observed_copy', 'compiled_net.nodes[node].copy()',
+     [('operation is None', True)],
+     'an observed twin takes over the node\'s own instruction only when no operation is given'),
+    ('elfi.compiler:ObservedCompiler.make_observed_copy', 'raise:0',
+     [('compiled_net.has_node(_o)', True)],
+     'an observed twin is never created twice'),
+]
+
+
+@obligation('C03-o', 'T11', 'the batch generator supplied to the stochastic nodes is chosen on the '
+            'right side of the seed tests (shared with C02-l), and an observed twin copies the '
+            'node\'s own instruction exactly when no replacement operation is given', floor=4,
+            necessary='"the batch generator ... supplied exactly to the nodes that declare them": '
+                      'with a seed test negated the nodes receive the process-wide generator; a '
+                      'discrepancy\'s twin that copies the discrepancy operation instead of the '
+                      'tuple builder no longer hands on the observed twins of its parents')
+def c03_o(ctx):
+    from .base import check_guard_table
+    from .C02 import _C02_GUARDS
+    check_guard_table(ctx, _C02_GUARDS)
+    check_guard_table(ctx, _C03_TWIN)
